@@ -204,9 +204,10 @@ CHECKS = {
         category="proof", design_ref="DESIGN.md §4 C07",
         text=("Proved: for every element type, size-field width, array length and *every* kernel stream size k, the returned size is at most raw + 128 + "
               "0.1 % of raw, given only that each path's raw-copy guard fires no later than raw-stream size + 8 and the back end's worst-case framing "
-              "(hypothesis wrap(s) <= s + s/3277 + 40, sampled); constant streams are below 64 bytes for all ten types. Obligations on facts "
+              "(hypothesis wrap(s) <= s + s/3277 + 40, sampled; also proved under the weaker s/3000 and, with no numeric hypothesis, for any back end "
+              "that stays within zstd's raw-block worst case or zlib's deflateBound: C07_size_bound_backends); constant streams are below 64 bytes for all ten types. Obligations on facts "
               "regenerated from the source: all 52 kernel-level compress functions (float, double, 8 integer types, PW_REL variants) end in a "
-              "raw-copy guard and both dispatchers guard their four arms. On the implementation: incompressible and constant arrays, all modes."),
+              "raw-copy guard placed after the writer of the size it tests, and both dispatchers guard their four arms. On the implementation: incompressible and constant arrays, all modes."),
         note=TB_COMMON + "zlib/zstd framing is an assumption (sampled by the lz cases); the guards' exact thresholds are facts matched by regular expressions over the source text.",
         technique="Coq proof (linear arithmetic over stream-size formulas, section hypothesis for the back end) + source-fact obligations + size oracle"),
 }
